@@ -1,6 +1,557 @@
 import PppModel.Auto
+import PppModel.Spec.V1
+import PppModel.Lemmas.Utf8
+import PppModel.Lemmas.V1Accept
+import PppModel.Lemmas.V1NoPanic
+import PppModel.Lemmas.V2NoPanic
 
-/-! # C15 (theorems under construction) -/
+/-!
+# C15 — v1 header views reconstruct the header text
+
+A *well-formed header* is an `h : V1.Header` whose text and decoded addresses are
+related by the line grammar: `Spec.V1.Line V1.ip6Model h.header h.addresses`.  Every
+header returned by `V1.parseBytes` / `V1.parseStr` is well-formed
+(`wellFormed_of_parseBytes`, `wellFormed_of_parseStr`; the bridge is
+`window_is_window` + `V1.line_of_parseHeader_ok`).
+
+For every well-formed header:
+
+* `protocol_matches` — the reported protocol keyword is the second field of the line
+  and matches the kind of the decoded addresses;
+* `reassemble`, `reassemble_sep` — `PROXY`, a space, the protocol, the (separated)
+  address text and CR LF re-assemble to the header text;
+* `addressesStr_tcp4`, `addressesStr_tcp6`, `addressesStr_unknown`, `addressesStr_cases`
+  — what the address text is, case by case;
+* `display_is_header`, `owned_views` — `Display` prints the header text, `to_owned`
+  keeps every view (`rfl` in the model, ownership is erased);
+* `addressesStr_no_panic` — the accessor `addresses_str` (a `usize` subtraction and two
+  `&str` slices, each of which panics off a char boundary) returns normally, with the
+  value of the pure model.
+
+Each statement is then specialised to `V1.parseBytes x = .ok h` and `V1.parseStr x = .ok h`.
+-/
 
 namespace C15
+
+open V1
+
+/-! ## List bookkeeping -/
+
+/-- Cutting `suf` off the end and `pre` off the front leaves the middle. -/
+theorem slice_mid (pre mid suf : B) :
+    ((pre ++ mid ++ suf).take ((pre ++ mid ++ suf).length - suf.length)).drop pre.length = mid := by
+  have e : (pre ++ mid ++ suf).length - suf.length = (pre ++ mid).length := by
+    simp only [List.length_append]; omega
+  rw [e, List.take_left, List.drop_left]
+
+theorem PROXY_SP_length (p : B) : (PROXY ++ [SP] ++ p).length = PROXY.length + 1 + p.length := by
+  simp only [List.length_append, List.length_cons, List.length_nil]
+
+/-! ## The window handed to `parse_header` is a window -/
+
+/-- The first CR of a prefix is the first CR of the whole. -/
+theorem firstCR_of_take {x : B} {n i : Nat} (h : firstCR (x.take n) = some i) : firstCR x = some i := by
+  have := firstCR_append_of_some (x.drop n) h
+  rwa [List.take_append_drop] at this
+
+/-- What `parseBytes` / `parseStr` hand to `parseHeader` has nothing after the byte that
+follows its first CR. -/
+theorem window_is_window {x : B} {n : Nat} (h : windowLength x = some n) : IsWindow (x.take n) := by
+  intro i hi
+  have hx := firstCR_of_take hi
+  simp only [windowLength, hx, Option.some.injEq, CRLF, List.length_cons, List.length_nil] at h
+  have : (x.take n).length ≤ n := by simp only [List.length_take]; omega
+  omega
+
+/-! ## Accepted headers are well-formed -/
+
+/-- What `parseBytes` did on a success. -/
+theorem parseBytes_ok_inv {x : B} {h : Header} (hp : parseBytes x = .ok h) :
+    ∃ n, windowLength x = some n ∧ Utf8.valid (x.take n) = true ∧ parseHeader (x.take n) = .ok h := by
+  unfold parseBytes at hp
+  cases hw : windowLength x with
+  | none => rw [hw] at hp; cases hp
+  | some n =>
+    rw [hw] at hp
+    simp only at hp
+    cases hv : Utf8.valid (x.take n) with
+    | false => simp [hv] at hp
+    | true =>
+      simp only [hv, Bool.not_true, Bool.false_eq_true, if_false] at hp
+      cases hh : parseHeader (x.take n) with
+      | error e => rw [hh] at hp; cases hp
+      | ok h' =>
+        rw [hh] at hp
+        simp only [Except.ok.injEq] at hp
+        subst hp
+        exact ⟨n, rfl, hv, hh⟩
+
+/-- What `parseStr` did on a success. -/
+theorem parseStr_ok_inv {x : B} {h : Header} (hp : parseStr x = .ok h) :
+    ∃ n, windowLength x = some n ∧ Utf8.isCharBoundary x n = true ∧ parseHeader (x.take n) = .ok h := by
+  unfold parseStr at hp
+  cases hw : windowLength x with
+  | none => rw [hw] at hp; cases hp
+  | some n =>
+    rw [hw] at hp
+    simp only at hp
+    cases hb : Utf8.isCharBoundary x n with
+    | false => simp [hb] at hp
+    | true =>
+      simp only [hb, Bool.not_true, Bool.false_eq_true, if_false] at hp
+      exact ⟨n, rfl, hb, hp⟩
+
+/-- The header accepted from a window is that window, and it is a well-formed line. -/
+theorem wellFormed_of_parseHeader {x : B} {n : Nat} {h : Header} (hw : windowLength x = some n)
+    (hok : parseHeader (x.take n) = .ok h) :
+    h.header = x.take n ∧ Spec.V1.Line ip6Model h.header h.addresses := by
+  obtain ⟨e, -, hl⟩ := line_of_parseHeader_ok (window_is_window hw) hok
+  exact ⟨e, e ▸ hl⟩
+
+theorem wellFormed_of_parseBytes {x : B} {h : Header} (hp : parseBytes x = .ok h) :
+    Spec.V1.Line ip6Model h.header h.addresses := by
+  obtain ⟨n, hw, -, hok⟩ := parseBytes_ok_inv hp
+  exact (wellFormed_of_parseHeader hw hok).2
+
+theorem wellFormed_of_parseStr {x : B} {h : Header} (hp : parseStr x = .ok h) :
+    Spec.V1.Line ip6Model h.header h.addresses := by
+  obtain ⟨n, hw, -, hok⟩ := parseStr_ok_inv hp
+  exact (wellFormed_of_parseHeader hw hok).2
+
+/-- The header text returned by `parseBytes` is valid UTF-8 (its own check). -/
+theorem valid_of_parseBytes {x : B} {h : Header} (hp : parseBytes x = .ok h) :
+    Utf8.valid h.header = true := by
+  obtain ⟨n, hw, hv, hok⟩ := parseBytes_ok_inv hp
+  rw [(wellFormed_of_parseHeader hw hok).1]; exact hv
+
+/-- The header text returned by `parseStr` on a `&str` is valid UTF-8: it is the prefix
+of the input up to a char boundary. -/
+theorem valid_of_parseStr {x : B} {h : Header} (hx : Utf8.valid x = true) (hp : parseStr x = .ok h) :
+    Utf8.valid h.header = true := by
+  obtain ⟨n, hw, hb, hok⟩ := parseStr_ok_inv hp
+  rw [(wellFormed_of_parseHeader hw hok).1, Utf8.valid_take_iff_boundary x hx n (windowLength_le hw)]
+  exact hb
+
+/-! ## The shape of a well-formed header -/
+
+/-- The protocol keyword matches the kind of the decoded addresses (by definition). -/
+theorem protocol_eq (h : Header) :
+    h.protocol = (match h.addresses with | .unknown => UNKNOWN | .tcp4 _ => TCP4 | .tcp6 _ => TCP6) := by
+  cases h with
+  | mk hd ad => cases ad <;> rfl
+
+/-- A well-formed header is `PROXY`, a space, *its own* protocol keyword, then either
+nothing or a space and CR-free text, then CR LF. -/
+theorem shape (h : Header) (hl : Spec.V1.Line ip6Model h.header h.addresses) :
+    ∃ between, h.header = PROXY ++ [SP] ++ h.protocol ++ between ++ CRLF ∧
+      (between = [] ∨ between.head? = some SP) ∧ crFree between := by
+  obtain ⟨hd, ad⟩ := h
+  simp only at hl
+  cases hl with
+  | unknown tail h1 h2 => exact ⟨tail, rfl, h1, h2⟩
+  | tcp4 sa da sp dp a b p q hsa hda hsp hdp =>
+    refine ⟨[SP] ++ sa ++ [SP] ++ da ++ [SP] ++ sp ++ [SP] ++ dp, ?_, Or.inr rfl, ?_⟩
+    · show PROXY ++ [SP] ++ TCP4 ++ [SP] ++ sa ++ [SP] ++ da ++ [SP] ++ sp ++ [SP] ++ dp ++ [CR, LF] =
+        PROXY ++ [SP] ++ TCP4 ++ ([SP] ++ sa ++ [SP] ++ da ++ [SP] ++ sp ++ [SP] ++ dp) ++ [CR, LF]
+      simp only [List.append_assoc]
+    · simp only [crFree_append]
+      exact ⟨⟨⟨⟨⟨⟨⟨crFree_SP, (ipv4Text_sepFree hsa).crFree⟩, crFree_SP⟩, (ipv4Text_sepFree hda).crFree⟩,
+        crFree_SP⟩, (portText_sepFree hsp).crFree⟩, crFree_SP⟩, (portText_sepFree hdp).crFree⟩
+  | tcp6 sa da sp dp a b p q hsa hda hsp hdp =>
+    refine ⟨[SP] ++ sa ++ [SP] ++ da ++ [SP] ++ sp ++ [SP] ++ dp, ?_, Or.inr rfl, ?_⟩
+    · show PROXY ++ [SP] ++ TCP6 ++ [SP] ++ sa ++ [SP] ++ da ++ [SP] ++ sp ++ [SP] ++ dp ++ [CR, LF] =
+        PROXY ++ [SP] ++ TCP6 ++ ([SP] ++ sa ++ [SP] ++ da ++ [SP] ++ sp ++ [SP] ++ dp) ++ [CR, LF]
+      simp only [List.append_assoc]
+    · simp only [crFree_append]
+      exact ⟨⟨⟨⟨⟨⟨⟨crFree_SP, hsa.2.crFree⟩, crFree_SP⟩, hda.2.crFree⟩,
+        crFree_SP⟩, (portText_sepFree hsp).crFree⟩, crFree_SP⟩, (portText_sepFree hdp).crFree⟩
+
+/-! ## `addresses_str` on a header of that shape -/
+
+/-- The slice `header[start..end]` of `addresses_str` is what lies between the protocol
+keyword and CR LF. -/
+theorem slice_of_shape {h : Header} {between : B}
+    (e : h.header = PROXY ++ [SP] ++ h.protocol ++ between ++ CRLF) :
+    (h.header.take (h.header.length - CRLF.length)).drop (PROXY.length + 1 + h.protocol.length) =
+      between := by
+  rw [← PROXY_SP_length, e]
+  exact slice_mid _ _ _
+
+theorem addressesStr_of_shape {h : Header} {between : B}
+    (e : h.header = PROXY ++ [SP] ++ h.protocol ++ between ++ CRLF) :
+    h.addressesStr = (if between.head? = some SP then between.drop 1 else between) := by
+  unfold Header.addressesStr
+  simp only [slice_of_shape e, beq_iff_eq]
+
+/-! ## The statements of C15 -/
+
+/-- **C15 (protocol).** The reported protocol keyword is the second field of the line —
+it follows `PROXY` and a space and is followed by a space or by the CR — and it matches
+the kind of the decoded addresses. -/
+theorem protocol_matches (h : Header) (hl : Spec.V1.Line ip6Model h.header h.addresses) :
+    ∃ rest, h.header = PROXY ++ [SP] ++ h.protocol ++ rest ∧
+      (rest.head? = some SP ∨ rest.head? = some CR) ∧
+      h.protocol = (match h.addresses with | .unknown => UNKNOWN | .tcp4 _ => TCP4 | .tcp6 _ => TCP6) := by
+  obtain ⟨between, e, hb, -⟩ := shape h hl
+  refine ⟨between ++ CRLF, by rw [e, List.append_assoc], ?_, protocol_eq h⟩
+  rcases hb with rfl | hb
+  · right; rfl
+  · left
+    cases between with
+    | nil => cases hb
+    | cons c t => exact hb
+
+/-- **C15 (re-assembly).** The header text is `PROXY`, a space, the protocol keyword, a
+middle part and CR LF; the middle part is empty or starts with a space; and
+`addresses_str` is the middle part without that space. -/
+theorem reassemble (h : Header) (hl : Spec.V1.Line ip6Model h.header h.addresses) :
+    ∃ between, h.header = PROXY ++ [SP] ++ h.protocol ++ between ++ CRLF ∧
+      h.addressesStr = (if between.head? = some SP then between.drop 1 else between) ∧
+      (between = [] ∨ between.head? = some SP) := by
+  obtain ⟨between, e, hb, -⟩ := shape h hl
+  exact ⟨between, e, addressesStr_of_shape e, hb⟩
+
+/-- **C15 (re-assembly, clean form).** `PROXY`, a space, the protocol keyword, the
+separated address text and CR LF re-assemble to the header text; the separator is a
+single space, or nothing when the line is a bare `PROXY UNKNOWN`. -/
+theorem reassemble_sep (h : Header) (hl : Spec.V1.Line ip6Model h.header h.addresses) :
+    ∃ sep, (sep = [] ∨ sep = [SP]) ∧
+      h.header = PROXY ++ [SP] ++ h.protocol ++ sep ++ h.addressesStr ++ CRLF := by
+  obtain ⟨between, e, ha, hb⟩ := reassemble h hl
+  rcases hb with rfl | hb
+  · refine ⟨[], Or.inl rfl, ?_⟩
+    rw [ha, e]; simp
+  · cases between with
+    | nil => cases hb
+    | cons c t =>
+      simp only [List.head?_cons, Option.some.injEq] at hb
+      subst hb
+      refine ⟨[SP], Or.inr rfl, ?_⟩
+      rw [ha, e]
+      simp only [List.head?_cons, if_true, List.drop_succ_cons, List.drop_zero, List.append_assoc,
+        List.cons_append, List.nil_append]
+
+/-- The separator is empty only for a bare `PROXY <protocol>\r\n`, whose address text is
+empty too. -/
+theorem reassemble_sep_nil (h : Header) (hl : Spec.V1.Line ip6Model h.header h.addresses)
+    (e : h.header = PROXY ++ [SP] ++ h.protocol ++ [] ++ h.addressesStr ++ CRLF) :
+    h.addressesStr = [] ∧ h.header = PROXY ++ [SP] ++ h.protocol ++ CRLF := by
+  obtain ⟨between, e', ha, hb⟩ := reassemble h hl
+  have hbe : between = h.addressesStr := by
+    have := e'.symm.trans e
+    simp only [List.append_assoc, List.nil_append, List.append_cancel_left_eq] at this
+    exact List.append_cancel_right this
+  have hnil : h.addressesStr = [] := by
+    rcases hb with rfl | hb
+    · exact hbe.symm
+    · rw [if_pos hb, ← hbe] at ha
+      have := congrArg List.length ha
+      cases between with
+      | nil => cases hb
+      | cons c t => simp at this
+  refine ⟨hnil, ?_⟩
+  rw [hnil] at e
+  simpa using e
+
+/-! ### The content of the address text -/
+
+/-- On a `TCP4` line the address text is the four fields, separated by single spaces. -/
+theorem addressesStr_tcp4 (h : Header) (a : IPv4) (sa da sp dp : B) (ha : h.addresses = .tcp4 a)
+    (e : h.header = PROXY ++ [SP] ++ TCP4 ++ [SP] ++ sa ++ [SP] ++ da ++ [SP] ++ sp ++ [SP] ++ dp ++ CRLF) :
+    h.addressesStr = sa ++ [SP] ++ da ++ [SP] ++ sp ++ [SP] ++ dp := by
+  have hp : h.protocol = TCP4 := by rw [Header.protocol, ha]; rfl
+  have e' : h.header = PROXY ++ [SP] ++ h.protocol ++ (SP :: (sa ++ [SP] ++ da ++ [SP] ++ sp ++ [SP] ++ dp)) ++ CRLF := by
+    rw [e, hp]; simp only [List.append_assoc, List.cons_append, List.nil_append]
+  rw [addressesStr_of_shape e']
+  simp
+
+/-- On a `TCP6` line the address text is the four fields, separated by single spaces. -/
+theorem addressesStr_tcp6 (h : Header) (a : IPv6) (sa da sp dp : B) (ha : h.addresses = .tcp6 a)
+    (e : h.header = PROXY ++ [SP] ++ TCP6 ++ [SP] ++ sa ++ [SP] ++ da ++ [SP] ++ sp ++ [SP] ++ dp ++ CRLF) :
+    h.addressesStr = sa ++ [SP] ++ da ++ [SP] ++ sp ++ [SP] ++ dp := by
+  have hp : h.protocol = TCP6 := by rw [Header.protocol, ha]; rfl
+  have e' : h.header = PROXY ++ [SP] ++ h.protocol ++ (SP :: (sa ++ [SP] ++ da ++ [SP] ++ sp ++ [SP] ++ dp)) ++ CRLF := by
+    rw [e, hp]; simp only [List.append_assoc, List.cons_append, List.nil_append]
+  rw [addressesStr_of_shape e']
+  simp
+
+/-- On an `UNKNOWN` line with tail `tail` (empty, or a space and arbitrary text) the
+address text is the tail without its leading space. -/
+theorem addressesStr_unknown (h : Header) (tail : B) (ha : h.addresses = .unknown)
+    (ht : tail = [] ∨ tail.head? = some SP)
+    (e : h.header = PROXY ++ [SP] ++ UNKNOWN ++ tail ++ CRLF) :
+    h.addressesStr = tail.drop 1 := by
+  have hp : h.protocol = UNKNOWN := by rw [Header.protocol, ha]; rfl
+  rw [← hp] at e
+  rw [addressesStr_of_shape e]
+  rcases ht with rfl | ht
+  · rfl
+  · rw [if_pos ht]
+
+/-- A bare `PROXY UNKNOWN\r\n` has an empty address text. -/
+theorem addressesStr_unknown_nil (h : Header) (ha : h.addresses = .unknown)
+    (e : h.header = PROXY ++ [SP] ++ UNKNOWN ++ CRLF) : h.addressesStr = [] :=
+  addressesStr_unknown h [] ha (Or.inl rfl) (by rw [e]; rfl)
+
+/-- **C15 (content).** Case by case, a well-formed header is one of the three line forms
+of the grammar (with the field texts denoting the decoded addresses), and its address
+text is: the four fields separated by single spaces (TCP4, TCP6); the free text after
+`UNKNOWN` without its leading space (UNKNOWN). -/
+theorem addressesStr_cases (h : Header) (hl : Spec.V1.Line ip6Model h.header h.addresses) :
+    (∃ tail, h.addresses = .unknown ∧ (tail = [] ∨ tail.head? = some SP) ∧ crFree tail ∧
+        h.header = PROXY ++ [SP] ++ UNKNOWN ++ tail ++ CRLF ∧ h.addressesStr = tail.drop 1) ∨
+    (∃ sa da sp dp a b p q,
+        h.addresses = .tcp4 { srcAddr := a, srcPort := p, dstAddr := b, dstPort := q } ∧
+        Spec.V1.Ipv4Text sa a ∧ Spec.V1.Ipv4Text da b ∧ Spec.V1.PortText sp p ∧ Spec.V1.PortText dp q ∧
+        h.header = PROXY ++ [SP] ++ TCP4 ++ [SP] ++ sa ++ [SP] ++ da ++ [SP] ++ sp ++ [SP] ++ dp ++ CRLF ∧
+        h.addressesStr = sa ++ [SP] ++ da ++ [SP] ++ sp ++ [SP] ++ dp) ∨
+    (∃ sa da sp dp a b p q,
+        h.addresses = .tcp6 { srcAddr := a, srcPort := p, dstAddr := b, dstPort := q } ∧
+        ip6Model sa a ∧ ip6Model da b ∧ Spec.V1.PortText sp p ∧ Spec.V1.PortText dp q ∧
+        h.header = PROXY ++ [SP] ++ TCP6 ++ [SP] ++ sa ++ [SP] ++ da ++ [SP] ++ sp ++ [SP] ++ dp ++ CRLF ∧
+        h.addressesStr = sa ++ [SP] ++ da ++ [SP] ++ sp ++ [SP] ++ dp) := by
+  obtain ⟨hd, ad⟩ := h
+  simp only at hl
+  cases hl with
+  | unknown tail h1 h2 =>
+    exact .inl ⟨tail, rfl, h1, h2, rfl, addressesStr_unknown _ tail rfl h1 rfl⟩
+  | tcp4 sa da sp dp a b p q hsa hda hsp hdp =>
+    exact .inr (.inl ⟨sa, da, sp, dp, a, b, p, q, rfl, hsa, hda, hsp, hdp, rfl,
+      addressesStr_tcp4 _ _ sa da sp dp rfl rfl⟩)
+  | tcp6 sa da sp dp a b p q hsa hda hsp hdp =>
+    exact .inr (.inr ⟨sa, da, sp, dp, a, b, p, q, rfl, hsa, hda, hsp, hdp, rfl,
+      addressesStr_tcp6 _ _ sa da sp dp rfl rfl⟩)
+
+/-- On an address line (`TCP4` / `TCP6`) the separator is a single space. -/
+theorem reassemble_tcp (h : Header) (hl : Spec.V1.Line ip6Model h.header h.addresses)
+    (ha : h.addresses ≠ .unknown) :
+    h.header = PROXY ++ [SP] ++ h.protocol ++ [SP] ++ h.addressesStr ++ CRLF := by
+  rcases addressesStr_cases h hl with ⟨_, hu, -⟩ | ⟨sa, da, sp, dp, a, b, p, q, hk, -, -, -, -, e, es⟩ |
+      ⟨sa, da, sp, dp, a, b, p, q, hk, -, -, -, -, e, es⟩
+  · exact absurd hu ha
+  · have hp : h.protocol = TCP4 := by rw [Header.protocol, hk]; rfl
+    rw [hp, es, e]; simp only [List.append_assoc]
+  · have hp : h.protocol = TCP6 := by rw [Header.protocol, hk]; rfl
+    rw [hp, es, e]; simp only [List.append_assoc]
+
+/-! ### `Display` and `to_owned` -/
+
+/-- `Display` prints the header text. -/
+theorem display_is_header (h : Header) : h.display = h.header := rfl
+
+/-- `to_owned` keeps the header, hence every view of it (ownership is erased in the model). -/
+theorem owned_views (h : Header) : h.toOwned = h := rfl
+
+theorem owned_views_all (h : Header) :
+    h.toOwned.header = h.header ∧ h.toOwned.addresses = h.addresses ∧ h.toOwned.protocol = h.protocol ∧
+      h.toOwned.addressesStr = h.addressesStr ∧ h.toOwned.addressesStrP = h.addressesStrP ∧
+      h.toOwned.display = h.display :=
+  ⟨rfl, rfl, rfl, rfl, rfl, rfl⟩
+
+/-! ## `addresses_str` never panics on an accepted header -/
+
+theorem SP_ascii : SP < 0x80 := by decide
+theorem CR_ascii : CR < 0x80 := by decide
+
+/-- On a valid header text of the shape above, the panic-aware accessor returns normally. -/
+theorem addressesStrP_of_shape {h : Header} {between : B}
+    (e : h.header = PROXY ++ [SP] ++ h.protocol ++ between ++ CRLF)
+    (hb : between = [] ∨ between.head? = some SP) (hv : Utf8.valid h.header = true) :
+    h.addressesStrP = .val h.addressesStr := by
+  have hslice := slice_of_shape e
+  -- lengths
+  have hlen : h.header.length = PROXY.length + 1 + h.protocol.length + between.length + CRLF.length := by
+    rw [e]; simp only [List.length_append, List.length_cons, List.length_nil]
+  have h2 : CRLF.length ≤ h.header.length := by omega
+  have hse : PROXY.length + 1 + h.protocol.length ≤ h.header.length - CRLF.length := by omega
+  have hend : h.header.length - CRLF.length ≤ h.header.length := by omega
+  -- `header[end]` is the CR: a boundary, and what precedes it is valid
+  have e1 : h.header = (PROXY ++ [SP] ++ h.protocol ++ between) ++ CR :: [LF] := e
+  have hv1 := hv; rw [e1] at hv1
+  obtain ⟨bend, vpre⟩ := Utf8.boundary_before_ascii _ CR [LF] hv1 CR_ascii
+  have bend' : Utf8.isCharBoundary h.header (h.header.length - CRLF.length) = true := by
+    have : h.header.length - CRLF.length = (PROXY ++ [SP] ++ h.protocol ++ between).length := by
+      rw [hlen]; simp only [List.length_append, List.length_cons, List.length_nil]; omega
+    rw [this]; rw [e1]; exact bend
+  -- `header[start]` is a space or the CR: a boundary, and what precedes it is valid
+  obtain ⟨c, r, hc, ecr⟩ : ∃ c r, c < 0x80 ∧ between ++ CRLF = c :: r := by
+    rcases hb with rfl | hb
+    · exact ⟨CR, [LF], CR_ascii, rfl⟩
+    · cases between with
+      | nil => cases hb
+      | cons c t =>
+        simp only [List.head?_cons, Option.some.injEq] at hb
+        subst hb
+        exact ⟨SP, t ++ CRLF, SP_ascii, rfl⟩
+  have e2 : h.header = (PROXY ++ [SP] ++ h.protocol) ++ c :: r := by
+    rw [e, ← ecr]; simp only [List.append_assoc]
+  have hv2 := hv; rw [e2] at hv2
+  obtain ⟨bstart, vhead⟩ := Utf8.boundary_before_ascii _ c r hv2 hc
+  have bstart' : Utf8.isCharBoundary h.header (PROXY.length + 1 + h.protocol.length) = true := by
+    rw [← PROXY_SP_length, e2]; exact bstart
+  -- the slice is valid
+  have vbetween : Utf8.valid between = true := by
+    rw [List.append_assoc] at vpre
+    exact Utf8.valid_of_append_left _ _ vpre vhead
+  -- evaluate
+  unfold Header.addressesStrP Header.addressesStr
+  rw [subP_of_le h2]
+  simp only [Outcome.val_bind, bstart', bend', Bool.and_self, Bool.not_true, Bool.false_eq_true, if_false]
+  rw [sliceP_of_le hse hend]
+  simp only [Outcome.val_bind, hslice]
+  rcases hb with rfl | hb
+  · rfl
+  · cases between with
+    | nil => cases hb
+    | cons c' t =>
+      simp only [List.head?_cons, Option.some.injEq] at hb
+      subst hb
+      have b1 := (Utf8.boundary_after_ascii [] SP t SP_ascii vbetween).1
+      simp only [List.nil_append, List.length_nil, Nat.zero_add] at b1
+      simp only [List.head?_cons, beq_self_eq_true, if_true, b1, Bool.not_true, Bool.false_eq_true, if_false]
+      rw [sliceFromP_of_le (by simp)]
+
+/-- **C15 (no panic).** On every well-formed header whose text is a `&str`,
+`addresses_str` returns normally with the value of the pure model: the subtraction does
+not underflow, `start ≤ end ≤ len`, both ends of the first slice and the start of the
+second slice are char boundaries. -/
+theorem addressesStr_no_panic (h : Header) (hl : Spec.V1.Line ip6Model h.header h.addresses)
+    (hv : Utf8.valid h.header = true) : h.addressesStrP = .val h.addressesStr := by
+  obtain ⟨between, e, hb, -⟩ := shape h hl
+  exact addressesStrP_of_shape e hb hv
+
+/-! ## The entry points -/
+
+section EntryPoints
+variable {x : B} {h : Header}
+
+theorem parseBytes_protocol_matches (hp : parseBytes x = .ok h) :
+    ∃ rest, h.header = PROXY ++ [SP] ++ h.protocol ++ rest ∧
+      (rest.head? = some SP ∨ rest.head? = some CR) ∧
+      h.protocol = (match h.addresses with | .unknown => UNKNOWN | .tcp4 _ => TCP4 | .tcp6 _ => TCP6) :=
+  protocol_matches h (wellFormed_of_parseBytes hp)
+
+theorem parseStr_protocol_matches (hp : parseStr x = .ok h) :
+    ∃ rest, h.header = PROXY ++ [SP] ++ h.protocol ++ rest ∧
+      (rest.head? = some SP ∨ rest.head? = some CR) ∧
+      h.protocol = (match h.addresses with | .unknown => UNKNOWN | .tcp4 _ => TCP4 | .tcp6 _ => TCP6) :=
+  protocol_matches h (wellFormed_of_parseStr hp)
+
+theorem parseBytes_reassemble (hp : parseBytes x = .ok h) :
+    ∃ between, h.header = PROXY ++ [SP] ++ h.protocol ++ between ++ CRLF ∧
+      h.addressesStr = (if between.head? = some SP then between.drop 1 else between) ∧
+      (between = [] ∨ between.head? = some SP) :=
+  reassemble h (wellFormed_of_parseBytes hp)
+
+theorem parseStr_reassemble (hp : parseStr x = .ok h) :
+    ∃ between, h.header = PROXY ++ [SP] ++ h.protocol ++ between ++ CRLF ∧
+      h.addressesStr = (if between.head? = some SP then between.drop 1 else between) ∧
+      (between = [] ∨ between.head? = some SP) :=
+  reassemble h (wellFormed_of_parseStr hp)
+
+theorem parseBytes_reassemble_sep (hp : parseBytes x = .ok h) :
+    ∃ sep, (sep = [] ∨ sep = [SP]) ∧
+      h.header = PROXY ++ [SP] ++ h.protocol ++ sep ++ h.addressesStr ++ CRLF :=
+  reassemble_sep h (wellFormed_of_parseBytes hp)
+
+theorem parseStr_reassemble_sep (hp : parseStr x = .ok h) :
+    ∃ sep, (sep = [] ∨ sep = [SP]) ∧
+      h.header = PROXY ++ [SP] ++ h.protocol ++ sep ++ h.addressesStr ++ CRLF :=
+  reassemble_sep h (wellFormed_of_parseStr hp)
+
+/-- The accepted header text is a prefix of the input (the window). -/
+theorem parseBytes_header_prefix (hp : parseBytes x = .ok h) : h.header <+: x := by
+  obtain ⟨n, hw, -, hok⟩ := parseBytes_ok_inv hp
+  rw [(wellFormed_of_parseHeader hw hok).1]; exact List.take_prefix _ _
+
+theorem parseStr_header_prefix (hp : parseStr x = .ok h) : h.header <+: x := by
+  obtain ⟨n, hw, -, hok⟩ := parseStr_ok_inv hp
+  rw [(wellFormed_of_parseHeader hw hok).1]; exact List.take_prefix _ _
+
+/-- **C15 (no panic, bytes).** `addresses_str` on a header returned by `TryFrom<&[u8]>`
+returns normally; validity of the header text comes from `parseBytes`' own check. -/
+theorem parse_accessors_no_panic (hp : parseBytes x = .ok h) : h.addressesStrP = .val h.addressesStr :=
+  addressesStr_no_panic h (wellFormed_of_parseBytes hp) (valid_of_parseBytes hp)
+
+/-- **C15 (no panic, str).** `addresses_str` on a header returned by `TryFrom<&str>` (the
+input being a `&str`) returns normally. -/
+theorem parseStr_accessors_no_panic (hx : Utf8.valid x = true) (hp : parseStr x = .ok h) :
+    h.addressesStrP = .val h.addressesStr :=
+  addressesStr_no_panic h (wellFormed_of_parseStr hp) (valid_of_parseStr hx hp)
+
+end EntryPoints
+
+/-! ## Non-vacuity: concrete headers (all by kernel evaluation of the definitions) -/
+
+section Examples
+
+/-- `"PROXY UNKNOWN a b\r\n"` -/
+def exUnknown : Header := ⟨PROXY ++ [SP] ++ UNKNOWN ++ [SP, 0x61, SP, 0x62] ++ CRLF, .unknown⟩
+/-- `"PROXY UNKNOWN\r\n"` -/
+def exBare : Header := ⟨PROXY ++ [SP] ++ UNKNOWN ++ CRLF, .unknown⟩
+/-- `"PROXY UNKNOWN é\r\n"` (a two-byte character in the free text) -/
+def exUtf8 : Header := ⟨PROXY ++ [SP] ++ UNKNOWN ++ [SP, 0xC3, 0xA9] ++ CRLF, .unknown⟩
+/-- `"PROXY TCP4 1.2.3.4 5.6.7.8 80 443\r\n"` -/
+def exTcp4Bytes : B :=
+  PROXY ++ [SP] ++ TCP4 ++ [SP, 0x31, 0x2E, 0x32, 0x2E, 0x33, 0x2E, 0x34, SP, 0x35, 0x2E, 0x36, 0x2E, 0x37,
+    0x2E, 0x38, SP, 0x38, 0x30, SP, 0x34, 0x34, 0x33] ++ CRLF
+def exTcp4 : Header := ⟨exTcp4Bytes, .tcp4 ⟨⟨1, 2, 3, 4⟩, 80, ⟨5, 6, 7, 8⟩, 443⟩⟩
+/-- `"PROXY TCP6 ::1 ::2 80 443\r\n"` -/
+def exTcp6Bytes : B :=
+  PROXY ++ [SP] ++ TCP6 ++ [SP, 0x3A, 0x3A, 0x31, SP, 0x3A, 0x3A, 0x32, SP, 0x38, 0x30, SP, 0x34, 0x34, 0x33] ++ CRLF
+
+def exTcp6 : Header :=
+  ⟨exTcp6Bytes, .tcp6 ⟨⟨[0, 0, 0, 0, 0, 0, 0, 0, 0, 0, 0, 0, 0, 0, 0, 1], rfl⟩, 80,
+    ⟨[0, 0, 0, 0, 0, 0, 0, 0, 0, 0, 0, 0, 0, 0, 0, 2], rfl⟩, 443⟩⟩
+
+/-- The hypothesis "well-formed header" is satisfiable. -/
+example : Spec.V1.Line ip6Model exUnknown.header exUnknown.addresses :=
+  Spec.V1.Line.unknown [SP, 0x61, SP, 0x62] (Or.inr rfl) (by decide)
+
+set_option maxRecDepth 8000 in
+example : parseBytes exUnknown.header = .ok exUnknown := by decide
+set_option maxRecDepth 8000 in
+example : parseStr exUnknown.header = .ok exUnknown := by decide
+set_option maxRecDepth 8000 in
+example : parseBytes (exTcp4Bytes ++ [0x47, 0x45, 0x54]) = .ok exTcp4 := by decide
+set_option maxRecDepth 8000 in
+example : parseBytes exTcp6Bytes = .ok exTcp6 := by decide
+set_option maxRecDepth 8000 in
+example : exTcp6.protocol = TCP6 ∧
+    exTcp6.addressesStr = [0x3A, 0x3A, 0x31, SP, 0x3A, 0x3A, 0x32, SP, 0x38, 0x30, SP, 0x34, 0x34, 0x33] ∧
+    exTcp6.addressesStrP = .val exTcp6.addressesStr := by decide
+
+set_option maxRecDepth 4000 in
+example : exUnknown.protocol = UNKNOWN ∧ exUnknown.addressesStr = [0x61, SP, 0x62] ∧
+    exUnknown.addressesStrP = .val [0x61, SP, 0x62] ∧ exUnknown.display = exUnknown.header := by decide
+set_option maxRecDepth 4000 in
+example : exBare.addressesStr = [] ∧ exBare.addressesStrP = .val [] := by decide
+set_option maxRecDepth 4000 in
+example : Utf8.valid exUtf8.header = true ∧ exUtf8.addressesStr = [0xC3, 0xA9] ∧
+    exUtf8.addressesStrP = .val [0xC3, 0xA9] := by decide
+set_option maxRecDepth 4000 in
+example : exTcp4.protocol = TCP4 ∧
+    exTcp4.addressesStr = [0x31, 0x2E, 0x32, 0x2E, 0x33, 0x2E, 0x34, SP, 0x35, 0x2E, 0x36, 0x2E, 0x37,
+      0x2E, 0x38, SP, 0x38, 0x30, SP, 0x34, 0x34, 0x33] ∧
+    exTcp4.addressesStrP = .val exTcp4.addressesStr ∧
+    exTcp4.header = PROXY ++ [SP] ++ exTcp4.protocol ++ [SP] ++ exTcp4.addressesStr ++ CRLF := by decide
+
+/-- The theorems instantiate on a concrete accepted input (header followed by payload). -/
+example : exTcp4.addressesStrP = .val exTcp4.addressesStr ∧
+    exTcp4.header = PROXY ++ [SP] ++ exTcp4.protocol ++ [SP] ++ exTcp4.addressesStr ++ CRLF :=
+  have hp : parseBytes (exTcp4Bytes ++ [0x47, 0x45, 0x54]) = .ok exTcp4 := by
+    set_option maxRecDepth 8000 in decide
+  ⟨parse_accessors_no_panic hp, reassemble_tcp _ (wellFormed_of_parseBytes hp) (by decide)⟩
+
+/-- The panic model is not trivially `.val`: on headers that are *not* well-formed the
+accessor panics — a text shorter than CR LF (the `usize` subtraction), and a text whose
+byte 13 is inside a two-byte character while the addresses say `UNKNOWN` (the slice
+start is not a char boundary). -/
+example : (⟨[CR], .unknown⟩ : Header).addressesStrP = .panic := by decide
+set_option maxRecDepth 4000 in
+example : (⟨PROXY ++ [SP] ++ [0x55, 0x4E, 0x4B, 0x4E, 0x4F, 0x57, 0xC3, 0xA9, SP, 0x61] ++ CRLF, .unknown⟩ :
+    Header).addressesStrP = .panic := by decide
+
+end Examples
+
 end C15
